@@ -9,6 +9,7 @@ of `do_end`.  The statement inherits C03: the inner chain must behave on the dec
 for html filters at unsafe flush points.
 -/
 import RioModel.Proofs.FilterCodec
+import RioModel.Proofs.FilterPipe
 set_option linter.unusedSimpArgs false
 set_option linter.unusedVariables false
 
@@ -90,6 +91,71 @@ theorem compressed_equiv_text (tk : Tokenize) (ev : Bytes → Bytes → Bool) (c
   unfold ChunkInvariantOn
   rw [innerOut_text tk ev codec inner hall ps pe, run_text tk ev codec _ hall rfl [b], h2]
   simp
+
+/-! ### html filters: the hypothesis follows from C03's safe-cut hypothesis at the decoder's flush points -/
+
+theorem innerFeed_eq_feedG (tk : Tokenize) (ev : Bytes → Bytes → Bool) (codec : Codec D E) :
+    ∀ (ps : List Bytes) (inner : List (Stage D E)),
+      innerFeed tk ev codec inner ps = feedG tk ev codec inner (nonEmpty ps)
+  | [], inner => rfl
+  | p :: ps, inner => by
+    simp only [innerFeed, nonEmpty, List.filter]
+    by_cases hemp : p.isEmpty = true
+    · simp only [hemp, if_true, Bool.not_true]
+      exact innerFeed_eq_feedG tk ev codec ps inner
+    · simp only [hemp, Bool.false_eq_true, if_false, Bool.not_false, feedG]
+      cases doFilter tk ev codec inner p with
+      | mk items1 r =>
+        cases r with
+        | none => rfl
+        | some q =>
+          simp only
+          rw [innerFeed_eq_feedG tk ev codec ps items1]
+          rfl
+
+/-- what the inner stages hand to the encoder is their pipeline run on the decoder's non-empty outputs -/
+theorem innerOut_eq_runG (tk : Tokenize) (ev : Bytes → Bytes → Bool) (codec : Codec D E)
+    (inner : List (Stage D E)) (ps : List Bytes) (pe : Bytes) :
+    innerOut tk ev codec inner ps pe = runG tk ev codec inner (nonEmpty ps) (optB pe) := by
+  unfold innerOut runG
+  rw [innerFeed_eq_feedG]
+  rfl
+
+/-- **Compressed ≡ decompressed for html (and text) filters at safe flush points.**  Under the codec laws, if the
+decoded body `b` is not empty, no inner call fails, and every inner stage is safe (`SafeG`, C03's executable
+safe-cut hypothesis) on the pieces it receives both when the chain is fed the decoder's outputs and when it is fed `b`
+as one chunk, then the output of the compressed chain decodes to the plain result. -/
+theorem compressed_equiv_safe (tk : Tokenize) (ev : Bytes → Bytes → Bool) (codec : Codec D E) {d0 : D} {e0 : E}
+    {decode : Bytes → Option Bytes} (laws : CodecLaws codec d0 e0 decode)
+    (inner : List (Stage D E)) (hp : AllPlain inner) (z b : Bytes) (hz : decode z = some b) (hb : b ≠ [])
+    (cs : List Bytes) (hcs : cs.flatten = z)
+    (hsafe : ∀ ps pe, decRun codec d0 cs = some (ps, pe) →
+      SafeG tk ev codec inner (nonEmpty ps) (optB pe) ∧ runG tk ev codec inner (nonEmpty ps) (optB pe) ≠ none)
+    (hsafe1 : SafeG tk ev codec inner [b] none) (hok1 : runG tk ev codec inner [b] none ≠ none) :
+    decode (({ items := .decode d0 :: inner ++ [.encode e0] } : Chain D E).run tk ev codec cs) =
+      some (({ items := inner } : Chain D E).run tk ev codec [b]) := by
+  obtain ⟨ps, pe, h1, h2, h3⟩ := compressed_equiv tk ev codec laws inner z b hz cs hcs
+  apply h3
+  unfold ChunkInvariantOn
+  obtain ⟨s1, s2⟩ := hsafe ps pe h1
+  rw [innerOut_eq_runG]
+  cases hr : runG tk ev codec inner (nonEmpty ps) (optB pe) with
+  | none => exact absurd hr s2
+  | some out =>
+    cases hr1 : runG tk ev codec inner [b] none with
+    | none => exact absurd hr1 hok1
+    | some out1 =>
+      rw [run_of_runG tk ev codec [b] inner out1 hr1]
+      congr 1
+      apply runG_stream tk ev codec inner (nonEmpty ps) (optB pe) [b] none out out1 hp _ _ s1 hsafe1 hr hr1
+      · rw [nonEmpty_flatten, optB_getD]; simpa using h2
+      · left
+        refine ⟨?_, by simp⟩
+        intro hc
+        apply hb
+        have := congrArg List.flatten hc
+        rw [List.flatten_append, nonEmpty_flatten, optB_toList_flatten] at this
+        rw [← h2]; simpa using this
 
 /-! ### the shape of the chain `FilterBodyAction::new` builds -/
 
